@@ -74,6 +74,7 @@ macro_rules
               | apply dra_wakeEventWaiters
               | apply dra_evCancel
               | apply dra_cancelAllFor
+              | apply dra_cancelUserAll
               | apply dra_cancelKindFor
               | apply dra_recordRes
               | apply dra_recordPool
